@@ -85,6 +85,20 @@ func genHistory(r *rand.Rand, g *wsclient.Gen, seed int64) *history {
 	if r.Intn(5) < 3 {
 		h.Cfg.WriteThenReadUS = 500 + r.Intn(2500)
 	}
+	// middlewares: counts that leave spare capacity in the slice conn.Use
+	// builds (3, 5-7, 9) and counts that do not (0, 1); some pause so that
+	// computations of different subscriptions / mutations overlap inside
+	// the chain
+	for k := []int{0, 1, 3, 3, 5, 6, 7, 9}[r.Intn(8)]; k > 0; k-- {
+		m := wsclient.MwSpec{}
+		if r.Intn(3) == 0 {
+			m.PreUS = 20 + r.Intn(300)
+		}
+		if r.Intn(5) == 0 {
+			m.PostUS = 20 + r.Intn(150)
+		}
+		h.Cfg.Middlewares = append(h.Cfg.Middlewares, m)
+	}
 	for _, c := range []string{"n", "s", "obj", "items", "plain", "nums", "ku", "pu", "slow", "exp", "boom", "r"} {
 		if r.Intn(3) == 0 {
 			h.Cfg.Modes[c] = r.Intn(3)
@@ -375,7 +389,7 @@ func TestCheck(t *testing.T) {
 	log.SetOutput(io.Discard)
 	run := vlib.Start(t, "C17", "exploration")
 	defer run.Finish()
-	run.Rule("histories over one websocket connection (scripted JSONSocket, recording SubscriptionLogger, WithMaxSubscriptions 2-4): 10-35 steps of subscribe / unsubscribe / mutate / echo / url / malformed envelopes with ids from a pool of 3 shared by ALL message types (plus fresh ids), undecodable frames, " +
+	run.Rule("histories over one websocket connection (scripted JSONSocket, recording SubscriptionLogger, WithMaxSubscriptions 2-4, 0-9 pass-through middlewares): 10-35 steps of subscribe / unsubscribe / mutate / echo / url / malformed envelopes with ids from a pool of 3 shared by ALL message types (plus fresh ids), undecodable frames, " +
 		"writes and invalidate-everything steps, resolver failures (initial and on re-run, safe and unsafe; failing mutations), context cancellation, socket close at a random step (ReadJSON error) or through a failing WriteJSON, gate steps (a resolver of an in-flight run is held while an unsubscribe(+re-subscribe) / close / cancel / colliding mutate / subscribe lands), " +
 		"an unsubscribe-all / close sent a fraction of the write-then-read delay after a write that invalidates an idle subscription, a failing-subscribe+unsubscribe+re-subscribe motif, unsubscribe+subscribe played while a closeSubscription call is held at its entry, writes injected at hook points; every subscription query carries a unique tag that its resolvers log and a field that creates a reactive.Resource with a Cleanup counter. " +
 		"reactive.WriteThenReadDelay is 0 in 2/5 of the histories and 0.5-3 ms in the rest. Every history ends with socket close, three invalidate-everything settle rounds and a quiescence wait. 4 pinned histories first. Non-trivial = the history has an end-by-close, an id collision or a failure. Distinct = step-kind sequence + end kinds of the instances.")
